@@ -221,6 +221,8 @@ PINNED = [
     ("squared pixel values", _P, "    return list(map(image.getpixel, pixel_positions))", "    return [image.getpixel(p) ** 2 for p in pixel_positions]"),
 ]
 PRESERVING = [
+    ("get_layer_elements inlined at its call site in get_intensity", "forsys/myosin.py", "    pixel_positions = get_layer_elements(x_y_position, layers)\n",
+     "    layer_range = np.arange(-layers, layers + 1)\n    pixel_positions = [(x_y_position[0] + ii, x_y_position[1] + kk) for (ii, kk) in itertools.product(layer_range, layer_range)]\n"),
     ("window range spelled with range()", _P, "xy_pixel = (position[0] + ii, position[1] + kk)", "xy_pixel = (ii + position[0], kk + position[1])"),
     ("position in two statements", _P, "x_y_position = [(vertex.x * rescale[0]) + offset[0], (vertex.y * rescale[1]) + offset[1]]", "px = offset[0] + rescale[0] * vertex.x\n    py = offset[1] + rescale[1] * vertex.y\n    x_y_position = [px, py]"),
 ]
